@@ -489,11 +489,31 @@ def case_merge(g, T):
 def case_extend(g, T):
     from flow.record import extend_record
     rnd = g.rnd
-    if rnd.random() < 0.3:
+    replace = rnd.random() < 0.5
+    mode = rnd.random()
+    if mode < 0.25:
         recs = [g.record(d) for d in repeated_descriptors(g)]       # a record TYPE recurs later in the list
+    elif mode < 0.45:
+        # 2-3 records share a field; the record that wins the precedence (first; last with replace) holds None for it,
+        # the others hold a value: None must win
+        from flow.record import RecordDescriptor
+        shared = rnd.choice(["key", "a", "value"])
+        n = rnd.choice([2, 2, 3])
+        winner = n - 1 if replace else 0
+        recs = []
+        for i in range(n):
+            t = rnd.choice(["string", "varint", "datetime", "float", "bytes", "uri"]) if rnd.random() < 0.5 else "string"
+            fl = [(tt, nn) for tt, nn in g.fields(lo=0, hi=3) if nn != shared]
+            fl.insert(rnd.randint(0, len(fl)), (t, shared))
+            d = RecordDescriptor(rnd.choice(RECNAMES), fl)
+            g.made.append((d, list(fl)))
+            r = g.record(d, preuse=False)
+            setattr(r, shared, None if i == winner else g.newvalue(t))
+            if rnd.random() < 0.5:          # the same for a reserved slot
+                r._source = None if i == winner else "src%d" % i
+            recs.append(r)
     else:
         recs = [g.record(g.descriptor()) for _ in range(rnd.randint(1, 4))]
-    replace = rnd.random() < 0.5
     name = rnd.choice([None, None, "new/name"])
     before = [obs(r) for r in recs]
     try:
@@ -969,7 +989,7 @@ def case_collide(g, T):
             got, want = "raised %s: %s" % (type(e).__name__, e), None
         if got != want or want is None:
             raise Bad("%s gave %s, expected %s" % (what, repr(got), repr(want)),
-                      dict(op=op, fields_a=fa, fields_b=fb, replace=replace, name=newname, got=repr(got), want=repr(want)))
+                      dict(operation=op, fields_a=fa, fields_b=fb, replace=replace, name=newname, got=repr(got), want=repr(want)))
         check_unchanged(sobs, seq, what)
     if recs[0]._desc == recs[1]._desc or not (recs[0]._desc != recs[1]._desc):
         demo = ""
@@ -1069,7 +1089,7 @@ def search(ctx, reason):
                     b.detail = dict(b.detail, op=kind, index=i)
                     raise
     except Bad as b:
-        ctx.violation("%s; failing input: %s" % (reason, b.what), dict(kind="composition", reason=reason, what=b.what, **b.detail))
+        ctx.violation("%s; failing input: %s" % (reason, b.what), dict(b.detail, kind="composition", reason=reason, what=b.what))
         return True
     except Exception:  # noqa
         return False
@@ -1124,14 +1144,14 @@ def correspondence(ctx):
     try:
         fixed_cases()
     except Bad as b:
-        ctx.violation(b.what, dict(kind="composition", what=b.what, **b.detail))
+        ctx.violation(b.what, dict(b.detail, kind="composition", what=b.what))
         return
     for kind, fn, n in KINDS:
         for i in range(n * scale):
             try:
                 ts, canon, nontrivial = run_case(kind, fn, ctx.seed, i, T, defaults)
             except Bad as b:
-                ctx.violation(b.what, dict(kind="composition", op=kind, index=i, what=b.what, **b.detail))
+                ctx.violation(b.what, dict(b.detail, kind="composition", op=kind, index=i, what=b.what))
                 return
             ctx.count_case(canon, nontrivial=nontrivial)
             for t in ts:
